@@ -44,6 +44,7 @@ constexpr bool post_pwr4(u64 v, long p)
 // non-negative on [0, 2^31)
 constexpr bool post_sqrt_std(fixed_t x, fixed_t r)
   { if( x.v < 0 ) return vf_isnan(r); if( x.v >= (1l << 47) ) return vf_valid(r); return r.v >= 0 && vf_finite(r); }
+constexpr bool pre_c13_small(fixed_t x) { return x.v >= 0 && x.v < (1l << 14); }
 constexpr bool pre_c13_neg(fixed_t x) { return x.v < 0 && vf_valid(x); }
 constexpr bool post_c13_neg(fixed_t, fixed_t r) { return vf_isnan(r); }
 }
